@@ -30,15 +30,33 @@ PROBES = {
     "onceLockCoversCall": [_probe("race", 40, 8, "25", bin="harness-race")],
     "fixedReverse": [_probe("gops", 800, 5)],
     "vsetValidates": [_probe("vset", 1500, 6)],
+    # shape facts without a model variant: when the shape is not recognised the behaviour is confirmed on these
+    "constsRecognised": [_probe("dij", 800, 7), _probe("dij", 200, 5, "huge"), _probe("call", 800, 0, "general"), _probe("call", 300, 0, "affinity")],
+    "emptyNameDelegates": [_probe("opts", 3000, 6), _probe("call", 1000, 0, "general")],
+    "nilIsUntypedOnly": [_probe("opts", 3000, 6), _probe("call", 500, 0, "affinity")],
+    "filtersTotal": [_probe("redef", 1500, 0)],
+    "optsCopied": [_probe("opts", 2000, 6), _probe("call", 900, 0, "general")],
+    "fromSignatureFresh": [_probe("result", 3000, 5)],
+    "argEager": [_probe("call", 1200, 0, "general"), _probe("opts", 2000, 6)],
+    "edgeToPathReadOnly": [_probe("dij", 1500, 7)],
+    "optionsFirst": [_probe("opts", 3000, 6)],
+    "redefinedOptsThenValues": [_probe("redef", 1500, 0)],
 }
 
 
 # every variant switch of the driver with the value of the repaired code, and the families whose replay depends on it
 ALL_FACTS = {"r5SkipSame": "true", "r6NameTest": "true", "r8SkipSupplied": "true", "publishAfterUpdate": "true",
              "trackReaching": "true", "takeValuedNamed": "true", "hopCopies": "true", "skipRecordsInput": "false",
-             "memoCopy": "true", "dupIsError": "true", "fixedReverse": "true", "vsetValidates": "true"}
+             "memoCopy": "true", "dupIsError": "true", "fixedReverse": "true", "vsetValidates": "true",
+             "constsRecognised": "true", "emptyNameDelegates": "true", "nilIsUntypedOnly": "true", "filtersTotal": "true",
+             "optsCopied": "true", "fromSignatureFresh": "true", "argEager": "true", "edgeToPathReadOnly": "true",
+             "optionsFirst": "true", "redefinedOptsThenValues": "true"}
 RESOLVER_FAMILIES = {"call", "redef", "hist", "conv"}
-FACT_FAMILIES = {"fixedReverse": {"gops"}, "vsetValidates": {"vset"}}
+FACT_FAMILIES = {"fixedReverse": {"gops"}, "vsetValidates": {"vset"},
+                 "constsRecognised": {"dij", "call", "redef", "hist", "conv"}, "emptyNameDelegates": {"opts", "call"},
+                 "nilIsUntypedOnly": {"opts", "call"}, "filtersTotal": {"redef"}, "optsCopied": {"opts", "call", "redef"},
+                 "fromSignatureFresh": {"result"}, "argEager": {"opts", "call"}, "edgeToPathReadOnly": {"dij"},
+                 "optionsFirst": {"opts"}, "redefinedOptsThenValues": {"redef"}}
 
 
 def relevant_facts(P):
